@@ -119,6 +119,8 @@ type Exec struct {
 	randStreams [][]*Term
 	absMemo     map[int]*Term
 	traceClass  string
+	valuesMeta  map[*Arr]*valuesSnap
+	urlMeta     map[*Arr][]*StrV
 }
 
 type Observation struct {
@@ -444,6 +446,43 @@ func (e *Exec) call(fv Value, args []Value, site *ssa.CallCommon) Value {
 	if h, ok := intrinsics[name]; ok {
 		e.intrinUsed[name] = true
 		return h(e, append(append([]Value{}, f.bind...), args...), site)
+	}
+	if name == "strconv.ParseUint" && len(args) == 3 {
+		// contract: ParseUint(Sprintf("%d", x), 10, b) == x when 0 <= x < 2^b, a range/syntax error otherwise
+		if sv, ok := args[0].(*StrV); ok && sv.arr != nil {
+			if di, ok := e.decStr[sv.arr]; ok {
+				base, bits := args[1].(*Term), args[2].(*Term)
+				if base.IsConst() && base.val == 10 && bits.IsConst() {
+					e.intrinUsed["strconv.ParseUint(decimal text of %d)"] = true
+					b := int(bits.val)
+					if b == 0 {
+						b = 64
+					}
+					x := e.tb.Resize(di.val, 64, di.signed)
+					fits := e.tb.True()
+					if di.signed {
+						fits = e.tb.Sle(e.c64(0), x)
+					}
+					if b < 64 {
+						fits = e.tb.And(fits, e.tb.Ult(x, e.c64(1<<uint(b))))
+					}
+					if e.branch(fits, "parseuint-fits") {
+						return &TupleV{E: []Value{x, &IfaceV{}}}
+					}
+					rec := &fmtRecord{format: "strconv.ParseUint: value out of range", exact: true, str: e.constString("strconv.ParseUint: value out of range")}
+					return &TupleV{E: []Value{e.c64(0), &IfaceV{typ: nil, v: &OpaqueV{kind: "fmterror", data: rec}}}}
+				}
+			}
+		}
+	}
+	if name == "strconv.Atoi" && len(args) == 1 {
+		// contract: Atoi(Sprintf("%d", x)) == x for the opaque decimal text of a symbolic integer
+		if sv, ok := args[0].(*StrV); ok && sv.arr != nil {
+			if di, ok := e.decStr[sv.arr]; ok {
+				e.intrinUsed["strconv.Atoi(decimal text of %d)"] = true
+				return &TupleV{E: []Value{e.tb.Resize(di.val, 64, di.signed), &IfaceV{}}}
+			}
+		}
 	}
 	// package init functions of other packages are run lazily (on first global access)
 	if fn.Name() == "init" && fn.Synthetic != "" && e.curFrame != nil && e.curFrame.fn.Name() == "init" && e.curFrame.fn.Synthetic != "" {
